@@ -236,6 +236,9 @@ def check_invariant(out, tag, t):
         if t.axis is None:
             if sc.numel() != 1:
                 out.fail(f"{tag}/I/axis", f"axis None but scale has shape {tuple(sc.shape)}")
+            elif sc.ndim not in (0, t.ndim) and sc.ndim > t.ndim:
+                # a one-element scale with MORE dims than the tensor no longer broadcasts to the tensor's shape
+                out.fail(f"{tag}/I/axis", f"per-tensor scale of shape {tuple(sc.shape)} on a tensor of rank {t.ndim}")
         else:
             ax = t.axis
             if ax not in (0, -1) or t.ndim < 2:
